@@ -150,6 +150,9 @@ func checkC10(c *Ctx) {
 	}
 	c.c10Paths()
 	c.c10LiteralPath()
+	r.Rule("C10/PERSIST/errors", "in the file store every error the code tests against nil is reported on its failure branch: no return reachable there reports success (except behind an explicit not-exist / EOF test); a failed write, flush, close, rename or unlink never looks like a completed one")
+	nE := c.storeErrorsPropagate("C10/PERSIST/errors", pkgFuncs(p, fileRel), "the operation is reported as done although the file system refused it: what the store says it holds and what is on disk part ways, and a restart shows the difference")
+	r.Floor("C10/PERSIST/errors", "tested errors in the file store", nE, 10)
 	// what writeIndex reports as written is what a fresh process will read: the temporary
 	// index is installed only after a successful flush and close (decided by C11's rule)
 	// a purged mailbox stays gone across a restart: the index goes first (decided by C11), so a
@@ -1397,4 +1400,87 @@ func (c *Ctx) c10LiteralPath() {
 	if nBad == 0 {
 		r.Ok(rule, "file-store", "", "no pattern-interpreting call in the %d functions of the file store takes the storage path", nFn)
 	}
+}
+
+// storeErrorsPropagate: in the given functions, an error that the code itself tests is
+// reported: on the non-nil edge of every (…, error) call whose error is compared with nil, no
+// return reports success — unless the branch is taken only for an explicit not-exist / EOF
+// test of that error (the accepted idioms of the file store: a missing index is an empty
+// mailbox). Errors the code discards outright (`_ = f.Close()` on a cleanup path) are not
+// judged here. A failure branch that was emptied, or that returns nil, makes a failed write
+// look like a success: the delivery is acknowledged, the removal confirmed, the index taken for
+// written.
+func (c *Ctx) storeErrorsPropagate(rule string, fns []*ssa.Function, consequence string) int {
+	isErrT := func(t types.Type) bool {
+		n, ok := t.(*types.Named)
+		return ok && n.Obj().Pkg() == nil && n.Obj().Name() == "error"
+	}
+	return c.errNotSwallowedCalls(rule, fns, func(call *ssa.Call) (string, bool) {
+		sig := call.Call.Signature()
+		res := sig.Results()
+		if res.Len() == 0 || !isErrT(res.At(res.Len()-1).Type()) {
+			return "", false
+		}
+		// the error value, and whether the function tests it against nil at all
+		var errV ssa.Value = call
+		if res.Len() > 1 {
+			errV = nil
+			if call.Referrers() != nil {
+				for _, ref := range *call.Referrers() {
+					if e, ok := ref.(*ssa.Extract); ok && e.Index == res.Len()-1 {
+						errV = e
+					}
+				}
+			}
+		}
+		if errV == nil {
+			return "", false
+		}
+		vals := append(eng.ValueAliases(errV), errV)
+		tested := false
+		for _, b := range call.Parent().Blocks {
+			for k := 0; k < len(b.Succs) && len(b.Succs) == 2; k++ {
+				rel, ok := eng.EdgeRel(b, k)
+				if !ok || rel.Op != token.NEQ {
+					continue
+				}
+				x, y := rel.X, rel.Y
+				if eng.IsNilConst(x) {
+					x, y = y, x
+				}
+				if !eng.IsNilConst(y) {
+					continue
+				}
+				for _, v := range vals {
+					if v == x {
+						tested = true
+					}
+				}
+			}
+		}
+		if !tested {
+			return "", false
+		}
+		// a function that cannot return an error (a deferred cleanup closure) can only log it
+		fres := call.Parent().Signature.Results()
+		if fres.Len() == 0 || !isErrT(fres.At(fres.Len()-1).Type()) {
+			return "", false
+		}
+		name := eng.CalleeName(call.Common())
+		if call.Call.IsInvoke() {
+			name = call.Call.Method.Name()
+		}
+		// tabled exception (one symbol, one reason): the file store's cap eviction in newMessage
+		// logs a failed removal and goes on with the delivery — the cap is best effort there, the
+		// next delivery tries again, and the delivery itself still fails if the index cannot be
+		// written
+		if g := eng.StaticCallee(call.Common()); g != nil && g.Name() == "removeMessage" && call.Parent().Name() == "newMessage" && eng.FuncPkgPath(call.Parent()) == eng.Mod+"/"+fileRel {
+			return "", false
+		}
+		// an existence probe answers a question; a negative answer is not a failure
+		if name == "os.Stat" || name == "os.Lstat" {
+			return "", false
+		}
+		return name, true
+	}, true, consequence)
 }
